@@ -5,32 +5,36 @@ From Coq Require Import List Arith PeanoNat NArith ZArith Bool Lia.
 From LH Require Import Base.Bytes Model.FileIndex Model.ModulePath.
 Import ListNotations.
 
-Lemma best_set_fx_true_le1 cur r st : (length (best_set_fx true cur r st) <= 1)%nat.
+Lemma best_of_true_le1 cur r cs : (length (best_of true cur r cs) <= 1)%nat.
 Proof.
-  cbn [best_set_fx]. destruct (best_match true cur r (bm_candidates r st)); cbn [length]; lia.
+  cbn [best_of]. destruct (best_match true cur r cs); cbn [length]; lia.
 Qed.
+
+Lemma best_set_fx_true_le1 cur r st : (length (best_set_fx true cur r st) <= 1)%nat.
+Proof. apply best_of_true_le1. Qed.
 
 Lemma check_refer_single disk cfg st cur k refer :
   order_fixed cfg = true -> (length (r_resolved (check_refer disk cfg st cur k refer)) <= 1)%nat.
 Proof.
   intros Hfx. unfold check_refer. rewrite Hfx.
   destruct (mem_bytes (remove_pre_str refer) (ignore_refer cfg)); [cbn; lia|].
-  assert (forall r, (length (r_resolved (match best_set_fx true cur r st with [] => not_found | l => found l end)) <= 1)%nat)
-    as Hone.
-  { intros r. pose proof (best_set_fx_true_le1 cur r st) as Hl.
-    destruct (best_set_fx true cur r st) as [|c l]; [cbn; lia|exact Hl]. }
+  assert (forall l, (length l <= 1)%nat ->
+            (length (r_resolved (match l with [] => not_found | c :: l' => found (c :: l') end)) <= 1)%nat) as Hone.
+  { intros l Hl. destruct l as [|c l]; [cbn; lia|exact Hl]. }
   destruct k.
   - destruct (true && mem_bytes (remove_pre_str refer) (ignore_modules cfg)); [cbn; lia|].
     destruct (disk _); [cbn; lia|]. destruct (exact_mode cfg).
     + destruct (disk _); [cbn; lia|]. destruct (disk _); cbn; lia.
     + pose proof (best_set_fx_true_le1 cur (replace_byte dot slash (remove_pre_str refer)) st) as Hl.
-      destruct (best_set_fx true cur (replace_byte dot slash (remove_pre_str refer)) st) as [|c l]; [apply Hone|exact Hl].
-  - destruct (disk _); [cbn; lia|]. destruct (exact_mode cfg); [cbn; lia|]. apply Hone.
+      destruct (best_set_fx true cur (replace_byte dot slash (remove_pre_str refer)) st) as [|c l];
+        [apply Hone; apply best_set_fx_true_le1|exact Hl].
+  - destruct (disk _); [cbn; lia|]. destruct (exact_mode cfg); [cbn; lia|]. apply Hone. apply best_of_true_le1.
   - destruct (false && mem_bytes (remove_pre_str refer) (ignore_modules cfg)); [cbn; lia|].
     destruct (disk _); [cbn; lia|]. destruct (exact_mode cfg).
     + destruct (disk _); [cbn; lia|]. destruct (disk _); cbn; lia.
     + pose proof (best_set_fx_true_le1 cur (replace_byte dot slash (remove_pre_str refer)) st) as Hl.
-      destruct (best_set_fx true cur (replace_byte dot slash (remove_pre_str refer)) st) as [|c l]; [apply Hone|exact Hl].
+      destruct (best_set_fx true cur (replace_byte dot slash (remove_pre_str refer)) st) as [|c l];
+        [apply Hone; apply best_set_fx_true_le1|exact Hl].
 Qed.
 
 (* every reference of the referencing file knows at most one resolved file *)
@@ -66,7 +70,7 @@ Proof.
   intros Hfx [Hs Ha]. unfold pstep.
   set (f := match e with Ins p => p | Rem p => p end).
   pose proof (any_touch_decided f (ps_refs s) Hs) as Hany.
-  destruct (existsb rs_err (ps_refs s)).
+  destruct (reanalyse_fixed cfg || existsb rs_err (ps_refs s)).
   - cbn [ps_refs ps_ambig]. split; [|exact Ha]. unfold single_refs in *. rewrite Forall_forall in *.
     intros r' Hr'. apply in_map_iff in Hr' as [r [<- Hr]]. apply reanalyse_ref_single; [exact Hfx|apply Hs; exact Hr].
   - destruct (any_touch f (ps_refs s)) as [[|]|]; [| |contradiction]; cbn [ps_refs ps_ambig].
